@@ -21,7 +21,6 @@ import copy
 import hashlib
 import itertools
 import json
-import os
 import pickle
 import warnings
 
@@ -55,10 +54,22 @@ ASSUMPTIONS = [
     'NaN-carrying values are not generated',
 ]
 BOUNDS = {
-    'quick': {'variations_per_object': 1, 'nested_depth': 3, 'pickle_protocols': '0..5',
-              'copy_isolation_objects': 'bases + every structure-changing single variation'},
-    'thorough': {'variations_per_object': 2, 'nested_depth': 3, 'pickle_protocols': '0..5',
-                 'copy_isolation_objects': 'every single-variation object'},
+    'quick': {'variations_per_object': '1 (CIMClassName: 2)', 'nested_depth': 3,
+              'pool_sizes': 'InstanceName 112, ClassName 102, Instance 260, Class 284, Property 323, '
+                            'Method 130, Parameter 227, Qualifier 90, QualifierDeclaration 96, '
+                            'DateTime 59, NocaseDict 56 (1 739 objects, all ordered pairs)',
+              'copies': 'every pool object x copy(), copy.copy, copy.deepcopy, pickle protocols 0..5',
+              'copy_isolation_objects': 'every base and every single-variation object whose '
+                                        'structure (set of mutation positions) is new',
+              'mutations': 'every attribute re-assignment, dict add/del/replace/clear/popitem, '
+                           'list append/set/del/reverse/clear at every position of the documented depth'},
+    'thorough': {'variations_per_object': 2, 'nested_depth': 3,
+                 'pool_sizes': 'InstanceName 325, ClassName 102, Instance 418, Class 674, Property 1483, '
+                               'Method 359, Parameter 628, Qualifier 437, QualifierDeclaration 569, '
+                               'DateTime 59, NocaseDict 86 (5 140 objects, all ordered pairs)',
+                 'copies': 'as quick, on every pool object',
+                 'copy_isolation_objects': 'every base and every single-variation object',
+                 'mutations': 'as quick'},
 }
 
 KINDS = ['CIMInstanceName', 'CIMClassName', 'CIMInstance', 'CIMClass', 'CIMProperty', 'CIMMethod',
@@ -772,7 +783,7 @@ def pool(kind, tier):
             vs = gen(base) if gen else []
             for v in vs:
                 add(apply_edits(base, v['ed']), fam, [v['n']], [v['attr']], [v['vc']], v['tag'])
-            if BOUNDS[tier]['variations_per_object'] >= 2 or kind in ('CIMClassName',):
+            if tier == 'thorough' or kind in ('CIMClassName',):
                 reps, seenk = [], set()
                 for v in vs:
                     # one representative per (attribute, variation class); nested variations
